@@ -165,7 +165,13 @@ class ArrayBinopSpec(FunctionSpec):
         out.append(unspecified("different-dimensions-and-lengths", z3.And(ok, bad_dims, z3.Not(same_len))))
         out.append(rai("different-dimensions", z3.And(ok, bad_dims, same_len), "InvalidOperationError", props=("C05", "C03")))
         good = z3.And(ok, z3.Not(bad_dims))
-        out.append(rai("different-lengths", z3.And(good, z3.Not(same_len)), "ValueError", props=("C10",)))
+        if numpy_path and len(seqs) == 2:
+            # numpy repeats an operand of length 1 instead of rejecting it (recorded finding)
+            bcast = z3.And(z3.Not(same_len), z3.Or(seqs[0].n == 1, seqs[1].n == 1))
+            out.append(rai("different-lengths/numpy-broadcast", z3.And(good, bcast), "ValueError", props=("C10",)))
+            out.append(rai("different-lengths", z3.And(good, z3.Not(same_len), z3.Not(bcast)), "ValueError", props=("C10",)))
+        else:
+            out.append(rai("different-lengths", z3.And(good, z3.Not(same_len)), "ValueError", props=("C10",)))
         good = z3.And(good, same_len)
         pr = ("C10", "C09") if (num_a or num_b) else ("C10",)
         pr = pr + (("C03",) if addsub else ("C04",))
